@@ -57,10 +57,16 @@ type Program struct {
 	allFuncs map[*ssa.Function]bool
 	Files    []string
 	NFuncs   int
+	// Normalised: this program is the helper-inlined normal form (positions refer to regenerated source)
+	Normalised bool
+	Inlined    []string
 }
 
 // Load loads dir/... with syntax, types and SSA.
-func Load(dir string, cfg Config) (*Program, error) {
+func Load(dir string, cfg Config) (*Program, error) { return LoadOverlay(dir, cfg, nil) }
+
+// LoadOverlay is Load with replacement contents for some files.
+func LoadOverlay(dir string, cfg Config, overlay map[string][]byte) (*Program, error) {
 	env := append(os.Environ(),
 		"GOFLAGS=-mod=mod", "GOPROXY=off", "GOSUMDB=off", "GOTOOLCHAIN=local", "GOWORK=off",
 		"CGO_ENABLED=0")
@@ -71,10 +77,11 @@ func Load(dir string, cfg Config) (*Program, error) {
 		env = append(env, "GOARCH="+cfg.GOARCH)
 	}
 	pc := &packages.Config{
-		Mode:  packages.LoadAllSyntax,
-		Dir:   dir,
-		Env:   env,
-		Tests: false,
+		Mode:    packages.LoadAllSyntax,
+		Dir:     dir,
+		Env:     env,
+		Tests:   false,
+		Overlay: overlay,
 	}
 	pkgs, err := packages.Load(pc, "./...")
 	if err != nil {
@@ -97,7 +104,7 @@ func Load(dir string, cfg Config) (*Program, error) {
 	prog, _ := ssautil.AllPackages(pkgs, ssa.InstantiateGenerics)
 	prog.Build()
 
-	p := &Program{Dir: dir, Config: cfg, Fset: pkgs[0].Fset, AllPkgs: all, Prog: prog}
+	p := &Program{Dir: dir, Config: cfg, Fset: pkgs[0].Fset, AllPkgs: all, Prog: prog, Normalised: overlay != nil}
 	for _, pk := range pkgs {
 		if pk.PkgPath == ModulePath || strings.HasPrefix(pk.PkgPath, ModulePath+"/") {
 			p.Pkgs = append(p.Pkgs, pk)
